@@ -64,7 +64,8 @@ Definition cst (p : pc) : cstage :=
 Definition incall (p : pc) : bool := match p with S_incall _ _ | W_incall _ _ _ => true | _ => false end.
 Definition sigof (p : pc) : option Z := match p with G_sig _ w => Some w | _ => None end.
 Definition wakeof (p : pc) : option Z := match p with G_wake _ w => Some w | _ => None end.
-Definition runof (p : pc) : option Z := match p with W_incall _ _ w => Some w | _ => None end.   (* whose item a worker runs *)
+Definition runof (p : pc) : option Z :=                     (* which waiter's item a worker runs *)
+  match p with W_incall _ _ w => if w =? 0 then None else Some w | _ => None end.
 Definition curpc (p : pc) : bool :=
   match p with P_cas _ | P_store _ | D_load _ _ | D_body _ _ _ | W_dec _ _ => true | _ => false end.
 Definition dbwpc (p : pc) : bool :=                        (* the popped item will be handed the lock whatever its kind *)
